@@ -7,6 +7,7 @@
   (`getPackageName` / `ParseTarget`: Package and Type of a call) and nested property structure.
 -/
 import CocaVerif.Base.GoMap
+import CocaVerif.Gen.Front
 
 namespace CocaVerif.Front
 
@@ -176,9 +177,11 @@ structure PState where
   dss : List PDS := []
   members : List PFn := []          -- one member per module-level function
   cur : Option PDS := none
+  stack : List (Option PDS) := []   -- the enclosing classes while a nested class is open
   deriving Repr
 
-/-- `none` where the Go code dereferences a nil `currentDataStruct` (ExitClassdef without an open class) -/
+/-- `none` where the Go code would dereference a nil `currentDataStruct` (an unguarded ExitClassdef without an open class);
+    whether it is guarded, and whether classes nest on a stack, are regenerated facts -/
 def onPy (st : PState) : PEv → Option PState
   | .importStmt names =>
     match names with
@@ -187,18 +190,31 @@ def onPy (st : PState) : PEv → Option PState
       some { st with imports := st.imports ++ [{ source := d, usage := (if a != "" then [a] else []) ++ rest.map fun r => r.2.2 }] }
   | .fromStmt source names =>
     some { st with imports := st.imports ++ [{ source := source, usage := if (names.splitOn ",").length > 1 then names.splitOn "," else [names] }] }
-  | .enterClass name annos => some { st with cur := some { name := name, annos := annos } }
+  | .enterClass name annos =>
+    some { st with cur := some { name := name, annos := annos },
+                   stack := if Gen.Front.pyEnterClassPushes then st.cur :: st.stack else st.stack }
   | .exitClass =>
-    match st.cur with
-    | some d => some { st with dss := st.dss ++ [d], cur := none }
+    -- the class that ends is listed; the enclosing class (if any) is taken up again
+    let listed : Option (List PDS) := match st.cur with
+      | some d => some (st.dss ++ [d])
+      | none => if Gen.Front.pyExitClassGuardsNil then some st.dss else none      -- the nil dereference of the unguarded code
+    match listed with
     | none => none
+    | some dss =>
+      if Gen.Front.pyExitClassPops then
+        match st.stack with
+        | top :: rest => some { st with dss := dss, cur := top, stack := rest }
+        | [] => some { st with dss := dss, cur := none }
+      else some { st with dss := dss, cur := none }
   | .enterFunc name annos =>
     match st.cur with
     | some d => some { st with cur := some { d with fns := d.fns ++ [⟨name, annos⟩] } }
     | none => some { st with members := st.members ++ [⟨name, annos⟩] }
   | .exitFunc => some st
 
-/-- one module; `currentDataStruct` is a package variable that `NewPythonIdentListener` leaves alone: it is threaded -/
-def runPy (cur : Option PDS) (evs : List PEv) : Option PState := evs.foldlM onPy { cur := cur }
+/-- one module; `currentDataStruct` is a package variable: it is threaded from file to file unless `NewPythonIdentListener`
+    assigns it (regenerated list of the variables it leaves alone) -/
+def runPy (cur : Option PDS) (evs : List PEv) : Option PState :=
+  evs.foldlM onPy { cur := if Gen.Front.pythonListenerUnreset.contains "currentDataStruct" then cur else none }
 
 end CocaVerif.Front
